@@ -1,6 +1,7 @@
 package main
 
 import (
+	"context"
 	"flag"
 	"fmt"
 	"os"
@@ -24,10 +25,18 @@ func contractFiles() []string {
 	for _, pd := range []struct{ dir, name string }{{"", "raft"}, {"quorum", "quorum"}, {"tracker", "tracker"}, {"confchange", "confchange"}, {"raftpb", "raftpb"}} {
 		inRepo := filepath.Join(repoDir, pd.dir, "zz_contracts_verif.go")
 		mirror := filepath.Join(contractDir, pd.name, "zz_contracts_verif.go")
-		if _, err := os.Stat(inRepo); err == nil {
-			out = append(out, inRepo)
-		} else if _, err := os.Stat(mirror); err == nil {
+		// The files in /repo (hook commit, build tag verif) and the mirror in /verif/contracts are kept byte-identical
+		// (govc sync). The mirror is read when present so that a tree restored without the hook commit is checked
+		// against the same contracts; a difference between the two is reported.
+		if _, err := os.Stat(mirror); err == nil {
 			out = append(out, mirror)
+			a, _ := os.ReadFile(mirror)
+			b, err := os.ReadFile(inRepo)
+			if err != nil || string(a) != string(b) {
+				fmt.Fprintf(os.Stderr, "note: %s differs from its mirror %s (run govc sync)\n", inRepo, mirror)
+			}
+		} else if _, err := os.Stat(inRepo); err == nil {
+			out = append(out, inRepo)
 		}
 	}
 	return out
@@ -75,6 +84,7 @@ func cmdVerify(args []string) {
 	dump := fs.String("dump", "", "obligation id (substring) to dump as SMT-LIB to stdout")
 	all := fs.Bool("all", false, "run all solvers")
 	verbose := fs.Bool("v", false, "print every obligation")
+	unq := fs.Bool("unq", false, "for undecided obligations, look for a candidate model with quantified facts removed (debugging aid)")
 	fs.Parse(args)
 	g := mustLoad()
 	keys := fs.Args()
@@ -82,21 +92,34 @@ func cmdVerify(args []string) {
 		keys = g.sortedContractKeys()
 	}
 	bad := 0
+	if len(fs.Args()) == 0 {
+		for _, n := range sortedKeys(g.contracts.Lemmas) {
+			keys = append(keys, "lemma."+n)
+		}
+	}
 	for _, k := range keys {
 		fc := g.contracts.Funcs[k]
+		if strings.HasPrefix(k, "lemma.") {
+			fc = &FuncContract{Key: k}
+		}
 		if fc == nil {
 			fmt.Printf("%s: no contract\n", k)
 			bad++
 			continue
 		}
-		if fc.Trusted || g.funcs[k] == nil || len(g.funcs[k].Blocks) == 0 {
+		if !strings.HasPrefix(k, "lemma.") && (fc.Trusted || g.funcs[k] == nil || len(g.funcs[k].Blocks) == 0) {
 			if len(keys) < 5 {
 				fmt.Printf("%s: trusted/external, skipped\n", k)
 			}
 			continue
 		}
 		t0 := time.Now()
-		res := g.verifyFunc(k)
+		var res *FuncResult
+		if strings.HasPrefix(k, "lemma.") {
+			res = g.verifyLemma(strings.TrimPrefix(k, "lemma."))
+		} else {
+			res = g.verifyFunc(k)
+		}
 		if res.Err != nil {
 			fmt.Printf("%s: ERROR %v\n%s", k, res.Err, res.Stack)
 			bad++
@@ -129,6 +152,9 @@ func cmdVerify(args []string) {
 			} else {
 				fail++
 				fmt.Printf("   FAIL %-60s %s [%s] %s\n        %s\n        %s\n", ob.ID, ob.Status, ob.Pos, ob.Output, ob.Desc, modelSummary(ob.Model))
+				if *unq && ob.Status != "sat" {
+					fmt.Printf("        candidate (quantifier-free relaxation): %s\n", candidateModel(sc, ob))
+				}
 			}
 		}
 		bad += fail
@@ -216,3 +242,26 @@ func cmdSync(args []string) {
 	}
 }
 
+
+// candidateModel drops all quantified facts and asks for a model: a debugging aid (the model may violate the dropped facts).
+func candidateModel(sc *Script, ob *Obligation) string {
+	var b strings.Builder
+	b.WriteString("(set-option :produce-models true)\n")
+	for _, d := range sc.decls[:ob.NDecls] {
+		b.WriteString(d + "\n")
+	}
+	for _, f := range sc.facts[:ob.NFacts] {
+		if strings.Contains(f, "(forall ") || strings.Contains(f, "(exists ") {
+			continue
+		}
+		b.WriteString("(assert " + f + ")\n")
+	}
+	b.WriteString("(assert " + ob.Guard + ")\n(assert (not " + ob.Goal + "))\n(check-sat)\n(get-model)\n")
+	dir, _ := os.MkdirTemp("", "govc-cand-")
+	defer os.RemoveAll(dir)
+	st, out, _ := runSolver(context.Background(), solvers[0], b.String(), 20, dir)
+	if st != "sat" {
+		return st
+	}
+	return strings.Join(modelLines(out), "; ")
+}
